@@ -363,7 +363,7 @@ def acl_case_st(draw, tier):
             acl["port_nr"] = False
             if any(it["t"] == "rem" and it["text"].startswith(acl["prefix"]) for it in acl["items"]) and draw(st.booleans()):
                 acl["group_by"] = acl["prefix"]
-    acl["name"] = draw(st.sampled_from(["T", "ACL-1", "acl_x.y", "110", "a(b)c", "X&Y", "n:1/2"]))
+    acl["name"] = draw(st.one_of(st.sampled_from(["T", "ACL-1", "acl_x.y", "110", "a(b)c", "X&Y", "n:1/2"]), G.acl_name_st()))
     if draw(st.sampled_from(range(10))) == 0:
         acl["indent"] = ""
     case = {"acl": acl, "level": draw(st.sampled_from(["acl", "acl", "acl", "acegroup"])), "noise": draw(st.booleans())}
